@@ -416,10 +416,25 @@ class PE:
                     if v is not None and v[0] != "ref":
                         return v
             return UNK
+        if cal in ("std::convert::From::from", "std::convert::Into::into"):
+            v = a(0)
+            dty = c.dest.get("ty", "")
+            if v is not None and v[0] in ("i", "b") and dty in _INT_BITS:
+                return ("i", _wrap(int(v[1]), dty))
+            if v is not None and v[0] == "i" and dty in ("f64", "f32"):
+                return ("f", float(v[1]))
+            return UNK
         if cal == "std::cmp::Ord::cmp":
             x, y = a(0), a(1)
             if x is not None and y is not None and x[0] in ("i", "b") and y[0] in ("i", "b"):
                 return ("adt", 0 if x[1] < y[1] else (1 if x[1] == y[1] else 2), ())
+            return UNK
+        if cal == "std::ops::FromResidual::from_residual":
+            full0 = c.t.get("callee_full") or ""
+            if full0.startswith("<std::result::Result<"):
+                return ("adt", 1, (UNK,))
+            if full0.startswith("<std::option::Option<"):
+                return NONE
             return UNK
         if cal == "std::ops::Try::branch":
             v = a(0)
